@@ -13,7 +13,7 @@
                         unlinked, re-parented, the path index re-keyed and the referrer list taken out of the map.
      K11_setref         set_reference_target: DEST and the referrer map are updated before the text write that fails. *)
 From AV Require Import Base.Bytes Base.Outcome Hash.HashModel Tree.Heap Tree.Ops Tree.Script Tree.Inv Tree.InvProofs
-  Tree.Index Tree.Observe Tree.Fail Tree.FailProofs Tree.FailProofsInv Tree.FailWitness.
+  Tree.Index Tree.Observe Tree.Fail Tree.FailProofs Tree.FailProofsInv Tree.FailWitness Tree.FailTables Spec.SpecReal.
 Open Scope list_scope.
 Open Scope N_scope.
 
@@ -64,6 +64,10 @@ Theorem C11_known_characterised :
                    parent_link w' mv <> parent_link w mv)
      \/ (exists h t, o = OpSetRefTarget h t /\ e = IncorrectContentType)).
 Proof. exact FailProofs.C11_known_characterised. Qed.
+
+(* [F] the table assumption holds for the generated specification tables (all 5080 data types swept by vm_compute) *)
+Theorem C11_real_tables_ok : tables_ok11 RT.
+Proof. exact real_tables_ok11. Qed.
 
 (* findings: the literal statement is refuted in each class (tiny table set, reachable worlds) *)
 Theorem C11_move_refwrite_refuted :
